@@ -210,6 +210,23 @@ class _Helper:
                     return "recursive"
         if not self.e_form and not _returns_only_in_if_chains(self.body):
             return "return inside loop / try / with"
+        # a helper that fills a container living outside of it and hands back what it finds there is a cache, not an
+        # extracted piece of its caller: it stays a function (the state rules look at it as such)
+        local = {x.id for x in ast.walk(n) if isinstance(x, ast.Name) and isinstance(x.ctx, ast.Store)}
+
+        def root(e):
+            while isinstance(e, (ast.Attribute, ast.Subscript)):
+                e = e.value
+            return e.id if isinstance(e, ast.Name) else None
+        filled = {ast.dump(x.targets[0].value) for x in ast.walk(n) if isinstance(x, ast.Assign) and len(x.targets) == 1 and isinstance(x.targets[0], ast.Subscript)
+                  and root(x.targets[0]) not in local}
+        filled |= {ast.dump(x.func.value) for x in ast.walk(n) if isinstance(x, ast.Call) and isinstance(x.func, ast.Attribute) and x.func.attr == "setdefault" and root(x.func.value) not in local}
+        if filled:
+            for x in ast.walk(n):
+                if isinstance(x, ast.Subscript) and isinstance(x.ctx, ast.Load) and ast.dump(x.value) in filled:
+                    return "fills and reads a container outside of it (cache)"
+                if isinstance(x, ast.Call) and isinstance(x.func, ast.Attribute) and x.func.attr in ("get", "setdefault") and ast.dump(x.func.value) in filled:
+                    return "fills and reads a container outside of it (cache)"
         return None
 
 
